@@ -726,6 +726,14 @@ func rulePeekGuardAgreement(w *World, r *Report) {
 						if s, ok := w.cmpAtomString(t, a.V, a.Truth); ok {
 							g[s] = true
 						}
+						// a predicate method of the same reader (an extracted "at end of input" test) is an atom too
+						if c, ok := a.V.(*ssa.Call); ok {
+							if cal := c.Common().StaticCallee(); cal != nil && cal.Signature.Recv() != nil && len(c.Common().Args) == 1 {
+								if n := namedOf(cal.Signature.Recv().Type()); n != nil && n.Obj() == t.Obj() {
+									g[fmt.Sprintf("%s() == %v", cal.Name(), a.Truth)] = true
+								}
+							}
+						}
 					}
 				}
 				if !found {
